@@ -574,7 +574,7 @@ class CodeGenMapper(Mapper[ImplementedResult, Never, [CodeGenState]]):
                 new_bounds_list: list[ArithmeticExpression] = []
                 for bound_prefix, bound, loopy_bound in zip(
                         bound_prefixes, bounds, loopy_bounds, strict=True):
-                    if not is_quasi_affine(loopy_bound):
+                    if not result_is_empty and not is_quasi_affine(loopy_bound):
                         unique_name = var_to_reduction_unique_name[var_name]
                         bound_name = state.var_name_gen(
                                         f"{unique_name}_{bound_prefix}bound")
